@@ -6,6 +6,10 @@ sys.path.insert(0, ROOT)
 from props import PROPS, ENGINES, NOT_APPLICABLE, ENGINE_TEXT
 
 all_ids = ["C%02d" % i for i in range(1, 21)]
+# properties whose check exists in the tree but is not claimed yet (under construction)
+pend = os.path.join(ROOT, "propsd", "PENDING")
+PENDING = set(open(pend).read().split()) if os.path.exists(pend) else set()
+PROPS = {k: v for k, v in PROPS.items() if k not in PENDING}
 checks = []
 for pid in sorted(PROPS):
     P = PROPS[pid]
